@@ -8,6 +8,7 @@ QBFT_TRUSTED = [
 ]
 ENTRY = {
     "lean_props": "CharonV.Props.C02",
+    "lean_props_extra": ["CharonV.Props.C02Spec"],
     "streams": [QBFT_STREAM],
     "level_text": "Kernel-checked Lean proof of agreement for the cluster built from the implementation model of qbft.Run: for every n >= 1, every Byzantine set of size <= floor((n-1)/3), every leader function, comparison function, FIFO limit, map-iteration oracle and every finite execution (any delivery order, loss, duplication, replay with recombined attachments, arbitrary Byzantine cores, timers at any point, late/missing starts and inputs) all Decide callbacks of honest members carry the same value. Proved by refinement of an abstract history-based QBFT spec (reach_sim) whose safety (lock lemma incl. the compare-failure path) is proved separately. The model is tied to core/qbft/qbft.go by lock-step differential correspondence with the real Run plus agreement/validity monitors on the real trace.",
     "level_note": "Trusted: Lean kernel; the correspondence harness and line driver; the adversary model (every delivered core is signed by its source = property C05; ECDSA unforgeability); Compare is deterministic per member and value. Not covered: real goroutine scheduling inside Run/compare, libp2p.",
